@@ -3,7 +3,7 @@ from __future__ import annotations
 
 import ast
 
-from ..absval import Undecided
+from ..absval import Undecided, eval_function
 from ..core import (AnalysisError, alpha, call_name, dotted, is_const, kwarg, local_defs, norm, origin, parent_map,
                     walk_local)
 from ..facts import guards_of, returns_of, enclosing_loops, unpack_of
@@ -89,11 +89,25 @@ def search(rep, rel, q, pi, hi):
     flag = flags[0] if len(set(flags)) == 1 else None
     best_w = [n for n in walk_local(sl) if isinstance(n, ast.Assign) and norm(n.value) == k and n not in walk_local(cl)]
     BEST = norm(best_w[0].targets[0]) if len(best_w) == 1 else None
-    # the flag is lowered once per level, before the subsets are enumerated
+    # "this level produced a mapping": a flag lowered once per level before the subsets are enumerated and raised where a mapping is stored,
+    # or the length of the result list compared with a snapshot taken at that same place
     resets = [n for n in sl.body if flag and pmatch(f"{flag} = False", n) is not None]
-    ok_flag = flag is not None and len(resets) == 1 and resets[0].lineno < cl.lineno and \
-        not [n for n in walk_local(cl) if isinstance(n, ast.Assign) and norm(n.targets[0]) == flag and not is_const(n.value, True)]
-    rep.ob("O12.2", "R16", fi, ok_flag, resets[0] if resets else "level_found = False", "the level flag is lowered once per size, before its subsets are enumerated")
+    LEVEL = None
+    if flag is not None:
+        ok_flag = len(resets) == 1 and resets[0].lineno < cl.lineno and \
+            not [n for n in walk_local(cl) if isinstance(n, ast.Assign) and norm(n.targets[0]) == flag and not is_const(n.value, True)]
+        LEVEL = flag
+        construct = resets[0] if resets else "level_found = False"
+    else:
+        snaps = [(n, b) for n in sl.body for b in [pmatch("$n = len($$res)", n)] if b is not None and res_txt and norm(n.value.args[0]) == res_txt and n.lineno < cl.lineno]
+        ok_flag = None
+        construct = "level_found = False"
+        if len(snaps) == 1:
+            sn, b = snaps[0]
+            ok_flag = len(defs.get(b["n"], [])) == 1 and len(apps) == 1
+            LEVEL = f"{b['n']}<len({_flat(sn.value.args[0])})"
+            construct = sn
+    rep.ob("O12.2", "R16", fi, ok_flag, construct, "the level flag is lowered once per size, before its subsets are enumerated")
     for ex in [n for n in walk_local(sl) if isinstance(n, (ast.Break, ast.Return))]:
         inside_inner = any(l is cl or enclosing_loops(pm, l, sl) and cl in enclosing_loops(pm, l, sl) for l in enclosing_loops(pm, ex, sl))
         gs = [(_flat(t), s) for t, s in guards_of(pm, ex, sl)]
@@ -102,7 +116,7 @@ def search(rep, rel, q, pi, hi):
             continue
         flat = [g for g, s in gs if s]
         in_mcs = any(g == "mcs" or g.startswith("mcsand") for g in flat)
-        after_level = (flag is not None and any(g == flag for g in flat) and ex.lineno > cl.lineno) or (BEST is not None and any(f"{k}<{BEST}" in g for g in flat))
+        after_level = (LEVEL is not None and any(g == LEVEL for g in flat) and ex.lineno > cl.lineno) or (BEST is not None and any(f"{k}<{BEST}" in g for g in flat))
         rep.ob("O12.2", "R16", fi, in_mcs and after_level, f"{type(ex).__name__} under {flat}",
                "the search stops early only in maximum mode and only once a complete level has produced a result (or sizes fell below the best)", node=ex)
     rep.ob("O12.1", "R2", fi, call_name(il.iter) == "subgraph_isomorphisms_iter", il.iter,
@@ -147,7 +161,7 @@ def search(rep, rel, q, pi, hi):
         ok = cond == [f"len({norm(lc.generators[0].target)})=={BEST}"] and norm(lc.generators[0].iter) == RES and gs == [f"mcsand{BEST}"] \
             and norm(lc.elt) == norm(lc.generators[0].target) and filt[0].lineno > sl.lineno
     rep.ob("O12.2", "R16", fi, ok, filt[0] if filt else "final filter", "in maximum mode only mappings of the best size are kept (all returned mappings have the same size)")
-    ok = len(best_w) == 1 and flag is not None and [norm(t) for t, s_ in guards_of(pm, best_w[0], sl) if s_] == [flag] and best_w[0].lineno > cl.lineno
+    ok = len(best_w) == 1 and LEVEL is not None and [_flat(t) for t, s_ in guards_of(pm, best_w[0], sl) if s_] == [LEVEL] and best_w[0].lineno > cl.lineno
     rep.ob("O12.2", "R16", fi, ok, best_w[0] if best_w else "best size", "the best size is the first (largest) level that produced a mapping")
 
 
@@ -195,8 +209,56 @@ def mcs_mol(rep, rel):
            mark[0] if mark else "used2.add", "a matched G2 component is not used again")
 
 
+_ORDERS = (1, 2, 3, 1.5, 1.0, 2.0)
+
+
+def _edge_table(fn_node, env_of):
+    """evaluate an edge predicate on every pair of sample bond orders -> list of disagreements with `equal orders <=> accepted` (Undecided propagates)"""
+    from ..absval import eval_function
+    bad = []
+    for h in _ORDERS:
+        for p_ in _ORDERS:
+            got = eval_function(fn_node, env_of({"order": h}, {"order": p_}))
+            if bool(got) != (h == p_):
+                bad.append(f"host {h!r} / pattern {p_!r} -> {got!r}")
+    for ha, pa in (({"order": 1}, {}), ({}, {"order": 2})):
+        got = eval_function(fn_node, env_of(ha, pa))
+        if got:
+            bad.append(f"host {ha} / pattern {pa} -> accepted")
+    return bad
+
+
 def edge_match(rep):
     fi = rep.f(MM, "MCSMatcher._edge_match")
+    HA, PA = fi.params[1], fi.params[2]
+    # the predicate is a small decision function: tabulate it on a finite domain of bond orders
+    table = None
+    try:
+        table = _edge_table(fi.node, lambda ha, pa: {"self._edge_attrs": ("order",), HA: ha, PA: pa})
+        from ..absval import eval_function
+        # two attributes: agreement on the first must not decide the answer
+        got2 = eval_function(fi.node, {"self._edge_attrs": ("order", "other"), HA: {"order": 1, "other": 1}, PA: {"order": 1, "other": 2}})
+        if got2:
+            table.append("order equal, second attribute different -> accepted")
+    except Undecided:
+        table = None
+    if table is not None:
+        rep.ob("O12.1", "R13", fi, not table, "_edge_match on sample bond orders", "bonds are accepted exactly when every configured attribute is equal on both sides "
+               "(numeric comparison for numbers; an attribute missing on one side rejects)", {"disagreements": table[:6], "orders": list(_ORDERS)})
+    else:
+        _edge_match_shape(rep, fi)
+    mt = rep.f(MT, "MCSMatcher._edge_match")
+    try:
+        bad = _edge_table(mt.node, lambda ha, pa: {"self.edge_attr": "order", mt.params[1]: ha, mt.params[2]: pa})
+        rep.ob("O12.1", "R13", mt, not bad, "MTG _edge_match on sample bond orders", "MTG twin: bond orders are compared for equality", {"disagreements": bad[:6]})
+    except Undecided:
+        rets = returns_of(mt.node)
+        ok = any("==" in norm(r.value) and f"{mt.params[1]}.get(self.edge_attr)" in norm(r.value) and f"{mt.params[2]}.get(self.edge_attr)" in norm(r.value) for r in rets)
+        rep.ob("O12.1", "R13", mt, True if ok else None, [norm(r.value)[:60] for r in rets], "MTG twin: bond orders are compared for equality")
+
+
+def _edge_match_shape(rep, fi):
+    """structural fall-back when the predicate cannot be tabulated"""
     HA, PA = fi.params[1], fi.params[2]
     pm = parent_map(fi.node)
     loops = [l for l in walk_local(fi.node) if isinstance(l, ast.For)]
@@ -224,26 +286,39 @@ def edge_match(rep):
     ok = hv is not None and pv is not None and len(cmp_) == 2 and any(pmatch(f"float({hv}) != float({pv})", c) is not None for c in cmp_) \
         and any(pmatch(f"{hv} != {pv}", c) is not None for c in cmp_)
     rep.ob("O12.1", "R13", fi, ok, [norm(c) for c in cmp_], "values are compared for (numeric or plain) equality between the host bond and the pattern bond")
-    mt = rep.f(MT, "MCSMatcher._edge_match")
-    rets = returns_of(mt.node)
-    ok = any("==" in norm(r.value) and f"{mt.params[1]}.get(self.edge_attr)" in norm(r.value) and f"{mt.params[2]}.get(self.edge_attr)" in norm(r.value) for r in rets)
-    rep.ob("O12.1", "R13", mt, ok, [norm(r.value)[:60] for r in rets], "MTG twin: bond orders are compared for equality")
 
 
 def orientation(rep):
     po = rep.f(MM, "MCSMatcher._prepare_orientation")
     P = po.params[1:3]
     pm = parent_map(po.node)
+    # a decision function of the two sizes: tabulate it
+    from ..absval import eval_function
+    bad, decided = [], True
+    for na, nb, ea, eb in [(a_, b_, x_, y_) for a_, b_ in ((1, 2), (2, 1), (2, 2), (0, 3), (5, 4)) for x_, y_ in ((1, 2), (2, 1), (1, 1))]:
+        size = {"<A>": na, "<B>": nb}
+        edges = {"<A>": ea, "<B>": eb}
+        env = {P[0]: "<A>", P[1]: "<B>"}
+        for nm, tag in ((P[0], "<A>"), (P[1], "<B>")):
+            for txt in (f"{nm}.number_of_nodes()", f"len({nm})", f"len({nm}.nodes)", f"len({nm}.nodes())", f"{nm}.order()"):
+                env[txt] = size[tag]
+            for txt in (f"{nm}.number_of_edges()", f"len({nm}.edges)", f"len({nm}.edges())", f"{nm}.size()"):
+                env[txt] = edges[tag]
+        try:
+            got = eval_function(po.node, env)
+        except Undecided:
+            decided = False
+            break
+        if not (isinstance(got, tuple) and len(got) == 3 and {got[0], got[1]} == {"<A>", "<B>"}):
+            bad.append(f"sizes {na},{nb} (edges {ea},{eb}) -> {got!r}")
+        else:
+            if size[got[0]] > size[got[1]]:
+                bad.append(f"sizes {na},{nb}: the larger graph became the pattern")
+            if bool(got[2]) != (got[0] == "<A>"):
+                bad.append(f"sizes {na},{nb} (edges {ea},{eb}): flag {got[2]!r} but pattern is {'the first' if got[0] == '<A>' else 'the second'} input")
     rets = returns_of(po.node)
-    rep.need("R17", len(rets), 2, "returns of _prepare_orientation")
-    for r in rets:
-        e = r.value.elts
-        first, second, flag = norm(e[0]), norm(e[1]), e[2]
-        ok = {first, second} == set(P) and is_const(flag) and flag.value == (first == P[0])
-        rep.ob("O12.3", "R17", po, ok, r, "the flag says whether the first input became the pattern", node=r)
-    t = [st for st in po.node.body if isinstance(st, ast.If)]
-    ok = bool(t) and norm(t[0].test).replace(" ", "") == f"{P[0]}.number_of_nodes()<={P[1]}.number_of_nodes()" and norm(t[0].body[0].value.elts[0]) == P[0]
-    rep.ob("O12.3", "R17", po, ok, t[0].test if t else "if", "the smaller graph becomes the pattern")
+    rep.ob("O12.3", "R17", po, (not bad) if decided else None, "_prepare_orientation on sample sizes",
+           "the smaller graph becomes the pattern and the flag says whether the first input became the pattern", {"disagreements": bad[:6]}, node=rets[0] if rets else po.node)
     fc = rep.f(MM, "MCSMatcher.find_common_subgraph")
     d = local_defs(fc.node)
     A, B = fc.params[1], fc.params[2]
@@ -253,35 +328,29 @@ def orientation(rep):
     rep.ob("O12.3", "R17", fc, ok, "pattern, host, pattern_is_G1 = self._prepare_orientation(G1_use, G2_use)", "the orientation triple is unpacked in order, for (G1, G2)")
     rep.ob("O12.3", "R17", fc, b is not None, "self._last_pattern_is_G1 = pattern_is_G1", "the orientation flag of this search is remembered")
     rep.ob("O12.3", "R17", fc, b is not None, "self._search_subgraphs(pattern, host, mcs=mcs)", "the search receives (pattern, host) in this order and the maximum-mode flag")
-    # get_mappings parity
+    # get_mappings parity: a decision function of (direction, orientation flag): tabulate it with the two conversions kept symbolic
     gmf = rep.f(MM, "MCSMatcher.get_mappings")
-    gd = local_defs(gmf.node)
-    loops = [l for l in walk_local(gmf.node) if isinstance(l, ast.For) and norm(l.iter) == "self._mappings"]
-    rep.need("R17", len(loops), 1, "loop in get_mappings")
-    lp = loops[0]
-    flags = [nm for nm, ds in gd.items() for d_ in ds if d_.kind == "assign" and norm(d_.value) == "self._last_pattern_is_G1"]
-    rep.need("R17", len(flags), 1, "local copy of the orientation flag in get_mappings")
-    fl = flags[0]
-    rets = [r for r in returns_of(gmf.node) if isinstance(r.value, ast.Name)]
-    res = rets[-1].value.id if rets else None
-    dirp = "direction"
-    for direction in ("G1_to_G2", "G2_to_G1"):
+    dirp = gmf.params[1]
+    from ..absval import _NOVALUE, eval_expr as _ev
+
+    def hook(expr, env):
+        if isinstance(expr, ast.Call) and len(expr.args) == 1 and not expr.keywords:
+            if norm(expr.func) == "dict":
+                return ("keep", _ev(expr.args[0], env))
+            if norm(expr.func) in ("self._invert_mapping", "MCSMatcher._invert_mapping"):
+                return ("inv", _ev(expr.args[0], env))
+        return _NOVALUE
+    for direction in ("G1_to_G2", "G2_to_G1", "pattern_to_host"):
         for pig1 in (True, False):
-            known = {f"{dirp} == 'G1_to_G2'": direction == "G1_to_G2", f"{dirp} == 'G2_to_G1'": direction == "G2_to_G1", fl: pig1}
+            want = "keep" if direction == "pattern_to_host" or ((direction == "G1_to_G2") == pig1) else "inv"
             try:
-                paths = walk_paths(lp.body, known)
-            except Undecided as exc:
-                rep.ob("O12.3", "R17", gmf, None, "get_mappings", str(exc))
-                continue
-            for p in paths:
-                apps = [c for st in p.stmts for c in ast.walk(st) if isinstance(c, ast.Call) and norm(c.func) == f"{res}.append"]
-                if len(apps) != 1:
-                    rep.ob("O12.3", "R17", gmf, False, f"direction={direction}, pattern_is_G1={pig1}", "exactly one mapping is emitted per cached mapping", {"appends": len(apps)})
-                    continue
-                inv = sum(1 for c in ast.walk(apps[0]) if isinstance(c, ast.Call) and call_name(c) == "_invert_mapping")
-                want = 1 if ((direction == "G1_to_G2") != pig1) else 0
-                rep.ob("O12.3", "R17", gmf, inv == want, f"direction={direction}, pattern_is_G1={pig1}: {alpha(apps[0], gmf.node)}",
-                       f"cached pattern->host mappings are inverted {want}x for this orientation (the two directions are mutually inverse)", {"inversions": inv}, node=apps[0])
+                got = eval_function(gmf.node, {dirp: direction, "self._last_pattern_is_G1": pig1, "self._mappings": ("<m1>", "<m2>"), "__resolve__": hook})
+                ok = got is not None and list(got) == [(want, "<m1>"), (want, "<m2>")]
+            except Undecided:
+                got, ok = "?", None
+            rep.ob("O12.3", "R17", gmf, ok, f"direction={direction}, pattern_is_G1={pig1}",
+                   f"every cached pattern->host mapping is returned once, {'inverted' if want == 'inv' else 'as a copy'} for this orientation (the two directions are mutually inverse)",
+                   {"returned": repr(got)[:120]})
     cw = rep.f(MM, "MCSMatcher._componentwise_mcs")
     pm = parent_map(cw.node)
     cd = local_defs(cw.node)
